@@ -312,7 +312,10 @@ func (fc *FuncCtx) callByContract(fr *Frame, st *State, callee *ssa.Function, c 
 		after := Fresh(heapVarName(h)+".call", before.Sort)
 		fc.p.noteHeapVar(after, h, na)
 		st.setH(h, after)
-		st.assume(fc.frameFormula(h, before, after, old.alloc, byHeap[h]))
+		// assumed without the "allocated before the call" guard: the content of
+		// cells that were not yet allocated is unobservable in the pre-state, so it
+		// may be taken equal to what the callee leaves there
+		st.assume(fc.frameFormula(h, before, after, nil, byHeap[h]))
 	}
 	// results
 	var resVals []Val
